@@ -482,5 +482,5 @@ func TestC13(t *testing.T) {
 		after, _ := applyC13(t, base, "edit:subject-add")
 		return c13Case{Base: base, Kind: "edit:subject-add", After: after}
 	}
-	core.Rapid(r, "detect", r.Pick(2500, 100000), gen, wrap)
+	core.Rapid(r, "detect", r.Pick(2500, 400000), gen, wrap)
 }
